@@ -177,8 +177,14 @@ func (core *JApiCore) isErrorInsideUnfinishedUserType(err error, name string) bo
 	if !stdErrors.As(err, &e) {
 		return false
 	}
-	n := e.Filename() // a schema of a user type is named after the type
-	return n != "" && n != name && core.isUserTypeInProgress(n)
+	// A schema of a user type is named after the type; an error found while the
+	// types added to a schema are checked names the type separately.
+	for _, n := range []string{e.IncorrectUserType(), e.Filename()} {
+		if n != "" && n != name && core.isUserTypeInProgress(n) {
+			return true
+		}
+	}
+	return false
 }
 
 func (core *JApiCore) isUserTypeInProgress(name string) bool {
